@@ -834,7 +834,7 @@ func c11Oracle(ctx *core.Ctx) {
 		}
 	}
 	// all subsets written explicitly with the default / with another value: seeded random
-	for i := 0; i < ctx.Pick(1500, 60000); i++ {
+	for i := 0; i < ctx.Pick(1500, 40000); i++ {
 		sc := c11RandomScenario(ctx.Rng)
 		ctx.Count("meta-random")
 		ctx.Count("meta-origin:" + sc.Origin)
